@@ -5,8 +5,10 @@ Model: cpp.ReadSet* -> CReadSet{reads: list of CRead}, cpp.Read* -> CRead{pos: l
 read.getPosition(i) carry index obligations (the C++ methods do not check).  Python sets -> SET(INT), unordered_set[int] -> SET(INT),
 vcf_indices -> DICT(INT, INT), variant_to_reads_map (a defaultdict(list)) -> DICT(INT, LIST(INT)) whose keys are required to exist.
 The priority queue, the coverage monitor and the component finder are used through the contracts proved in their own contract modules.
-WHICH read the queue returns is irrelevant for the properties proved here, so pops use the order-free contract c_pop/any and the two scoring
-functions are assumed to return some valid score (they are pure arithmetic on C++ vectors; listed as assumed).
+WHICH read the queue returns is irrelevant for the properties proved here, so pops use the order-free contract c_pop/any.  The two scoring functions
+are verified for what the selection relies on: they return a FRESH C++ vector of three components and write no existing one (so every queued score keeps
+the three components `_update_score_for_reads` reads with .at(0..2)), every C++ accessor is called in range, and `_compute_score_for_read` never indexes
+its list of covered variants while it is empty; `new priority_type()` is an allocation, `ptr.at/push_back/size` dereference the pointer.
 SPAN_B(r), SPAN_E(r) name the half-open index range [begin, end) that read r spans (ghost names fixed by VALID).
 """
 import z3
@@ -60,9 +62,25 @@ class ReadModel:
             i = to_z3(args[0])
             eng.oblige(st, "noexc", z3.And(i >= 0, i < pos.len), "read.getPosition-out-of-range")
             return pos.arr[i]
+        if name == "getVariantQuality" and len(args) == 1:
+            # the quality of the i-th variant: one per variant position (an uninterpreted function of read and index; only ever compared and copied)
+            i = to_z3(args[0])
+            eng.oblige(st, "noexc", z3.And(i >= 0, i < pos.len), "read.getVariantQuality-out-of-range")
+            return QUALITY(obj.ref, i)
         return NotImplemented
 
 
+QUALITY = z3.Function("READ_QUALITY", z3.IntSort(), z3.IntSort(), z3.IntSort())
+
+
+def model_new(eng, st, node, args, kwargs):
+    """new priority_type(): a fresh, empty C++ vector<int> behind a pointer"""
+    obj = eng.allocate(st, "Score")
+    eng.store_field(st, obj, "data", VList(INT, z3.K(z3.IntSort(), z3.IntVal(0)), z3.IntVal(0)))
+    return obj
+
+
+R.external_models["__new__"] = model_new
 R.object_models.update({"CReadSet": ReadSetModel, "CRead": ReadModel})
 
 
@@ -101,6 +119,18 @@ def VALID(eng, st, readset, vcf_indices, coverages, v2r):
         z3.ForAll([r, i], z3.Implies(z3.And(r >= 0, r < reads.len, i >= 0, i < plen[ref]), z3.And(
             vcf_indices.dom[parr[ref][i]], v2r.dom[idx(parr[ref][i])], z3.Implies(i >= 1, parr[ref][i] != parr[ref][0]))), patterns=[parr[reads.arr[r]][i]]),
     ]
+
+
+@R.spec
+def SCORES3(eng, st, pq):
+    """every queued score is an existing C++ vector with (at least) the three components the scoring functions read -- stated over the item -> score
+    view (equivalent to the statement over heap indices by POSOK), which is what the queue operations' postconditions speak about"""
+    q, d, sc, it = _PQ.H(eng, st, pq)
+    ln = eng.heap_arr(st, "Score.data#len", z3.IntSort())
+    k, i = z3.Ints(fresh_name("k") + " " + fresh_name("i"))
+    good = lambda ref: z3.And(ref > 0, ref < eng.alloc_bound(st, "Score"), ln[ref] >= 3)
+    return [forall_pat([k], z3.Implies(d.dom[k], good(sc(d.map[k]))), [d.dom[k]]),
+            forall_pat([i], z3.Implies(z3.And(0 <= i, i < q.len), good(sc(i))), [q.arr[i]])]
 
 
 @R.spec
@@ -157,7 +187,7 @@ def COUNTING(eng, st):
 _COUNTED = "forall(k, implies(0 <= k and k < len(coverages.coverage), coverages.coverage[k] == old(coverages.coverage[k]) + CNT(%s, k)), triggers=[coverages.coverage[k]])"
 
 WFQ = [("swo", "SWO()"), ("pos", "POSOK(pq)"), ("order", "ORDER(pq)"),
-       ("scores-valid", "forall(i, implies(0 <= i and i < len(pq.heap), pq.heap[i].first is not None and len(pq.heap[i].first.data) >= 0))")]
+       ("scores-valid", "SCORES3(pq)")]
 INPUTS = [("valid", "VALID(readset, vcf_indices, coverages, variant_to_reads_map)"), ("cap", "CAP(coverages, max_cov)")]
 SLICE_INV = [
     ("items-shrink", "forall(k, implies(k in pq.positions, old(k in pq.positions)))"),
@@ -171,14 +201,54 @@ SLICE_INV = [
 ]
 _QMOD = ["PriorityQueue.heap", "PriorityQueue.positions"]
 
-R.contract("_update_score_for_reads", assumed=True,
+@R.spec
+def READS_OK(eng, st, readset, vcf_indices):
+    """the part of VALID the scoring functions rely on: every read exists, has at least one variant, and every variant position has an index"""
+    reads, parr, plen = _reads(eng, st, readset)
+    r, i = z3.Ints(fresh_name("r") + " " + fresh_name("i"))
+    ref = reads.arr[r]
+    return [z3.ForAll([r], z3.Implies(z3.And(r >= 0, r < reads.len), z3.And(ref > 0, ref < eng.alloc_bound(st, "CRead"), plen[ref] >= 1)), patterns=[reads.arr[r]]),
+            z3.ForAll([r, i], z3.Implies(z3.And(r >= 0, r < reads.len, i >= 0, i < plen[ref]), vcf_indices.dom[parr[ref][i]]), patterns=[parr[reads.arr[r]][i]])]
+
+
+@R.spec
+def EXISTING_SCORES_SAME(eng, st):
+    """frame: the only Score object written is the freshly allocated result"""
+    n = z3.Int(fresh_name("n"))
+    A = z3.ArraySort(z3.IntSort(), z3.IntSort())
+    arr = lambda s_: eng.heap_arr(s_, "Score.data#arr", A)
+    ln = lambda s_: eng.heap_arr(s_, "Score.data#len", z3.IntSort())
+    return forall_pat([n], z3.Implies(z3.And(n > 0, n < st.old.alloc["pre:Score"]), z3.And(arr(st)[n] == arr(st.old)[n], ln(st)[n] == ln(st.old)[n])),
+                      [arr(st)[n], ln(st)[n]])
+
+
+_SCORE3 = ("a-fresh-score-of-three-components", "result is not None and len(result.data) == 3 and fresh_score(result) and EXISTING_SCORES_SAME()")
+
+
+@R.spec
+def fresh_score(eng, st, s_):
+    return z3.And(to_z3(s_) >= st.old.alloc["pre:Score"], to_z3(s_) < eng.alloc_bound(st, "Score"))
+R.contract("_update_score_for_reads",
            params={"former_score": REF("Score"), "readset": REF("CReadSet"), "index": INT, "already_covered_variants": SET(INT)}, returns=REF("Score"),
-           requires=[("score", "former_score is not None"), ("index", "0 <= index and index < len(readset.reads)")],
-           ensures=[("some-valid-score", "result is not None and len(result.data) >= 0")], props=P)
-R.contract("_compute_score_for_read", assumed=True,
+           requires=[("score", "former_score is not None and len(former_score.data) >= 3"), ("index", "0 <= index and index < len(readset.reads)"),
+                     ("read", "readset.reads[index] is not None")],
+           ensures=[_SCORE3,
+                    ("second-and-third-component-kept", "result.data[1] == former_score.data[1] and result.data[2] == former_score.data[2]"),
+                    ("first-component-does-not-grow", "result.data[0] <= former_score.data[0]")],
+           modifies=["Score.data"], extra={"allocates": ["Score"]},
+           locals={"read": REF("CRead"), "first_score": INT, "second_score": INT, "quality": INT},
+           loops={0: dict(index="ui", inv=[("decreasing", "first_score <= former_score.data[0]")])},
+           props=P)
+R.contract("_compute_score_for_read",
            params={"readset": REF("CReadSet"), "index": INT, "vcf_indices": DICT(INT, INT)}, returns=REF("Score"),
-           requires=[("index", "0 <= index and index < len(readset.reads)")],
-           ensures=[("some-valid-score", "result is not None and len(result.data) >= 0")], props=P)
+           requires=[("index", "0 <= index and index < len(readset.reads)"), ("reads", "READS_OK(readset, vcf_indices)")],
+           ensures=[_SCORE3,
+                    ("first-two-components-equal", "result.data[0] == result.data[1]")],
+           modifies=["Score.data"], extra={"allocates": ["Score"]},
+           locals={"read": REF("CRead"), "min_quality": INT, "good_score": INT, "bad_score": INT, "quality": INT, "pos": INT, "covered_variants": LIST(INT),
+                   "variant_covered": OPT(INT)},
+           loops={0: dict(index="ci", inv=[("every-variant-so-far-is-indexed", "len(covered_variants) == ci and good_score == ci")])},
+           props=P)
 
 R.contract(
     "_slice_read_selection",
@@ -211,14 +281,14 @@ R.contract(
 # ---------------------------------------------------------------------------------------------------------------------------------
 R.contract(
     "_construct_priorityqueue", params={"readset": REF("CReadSet"), "read_indices": SET(INT), "vcf_indices": DICT(INT, INT)}, returns=REF("PriorityQueue"),
-    requires=[("swo", "SWO()"), ("indices-valid", "forall(k, implies(k in read_indices, 0 <= k and k < len(readset.reads)))")],
+    requires=[("swo", "SWO()"), ("indices-valid", "forall(k, implies(k in read_indices, 0 <= k and k < len(readset.reads)))"), ("reads", "READS_OK(readset, vcf_indices)")],
     ensures=[("fresh", "result is not None and fresh_pq(result)"), ("swo", "SWO()"), ("pos", "POSOK(result)"), ("order", "ORDER(result)"),
-             ("scores-valid", "forall(i, implies(0 <= i and i < len(result.heap), result.heap[i].first is not None and len(result.heap[i].first.data) >= 0))"),
+             ("scores-valid", "SCORES3(result)"),
              ("items-are-the-given-reads", "forall(k, (k in result.positions) == (k in read_indices))")],
     modifies=_QMOD, extra={"allocates": ["PriorityQueue"]},
     locals={"priorityqueue": REF("PriorityQueue")},
     loops={0: dict(index="qi", inv=[("swo", "SWO()"), ("fresh", "priorityqueue is not None and fresh_pq(priorityqueue)"), ("pos", "POSOK(priorityqueue)"), ("order", "ORDER(priorityqueue)"),
-                                    ("scores-valid", "forall(i, implies(0 <= i and i < len(priorityqueue.heap), priorityqueue.heap[i].first is not None and len(priorityqueue.heap[i].first.data) >= 0))"),
+                                    ("scores-valid", "SCORES3(priorityqueue)"),
                                     ("items", "forall(k, (k in priorityqueue.positions) == visited(0, k))")])},
     props=P)
 
@@ -230,10 +300,10 @@ def fresh_pq(eng, st, q):
 
 R.contract("PriorityQueue.pop", assumed=True, params={"self": REF("PriorityQueue")}, returns=TUPLE(INT, INT),
            requires=[("swo", "SWO()"), ("pos", "POSOK(self)"), ("order", "ORDER(self)"),
-                     ("scores-valid", "forall(i, implies(0 <= i and i < len(self.heap), self.heap[i].first is not None and len(self.heap[i].first.data) >= 0))"),
+                     ("scores-valid", "SCORES3(self)"),
                      ("non-empty", "len(self.heap) > 0")],
            ensures=[("pos", "POSOK(self)"), ("order", "ORDER(self)"), ("returns-queued-item", "old(result[1] in self.positions)"), ("view", "VIEW_REMOVED(self, result[1])"),
-                    ("scores-valid", "forall(i, implies(0 <= i and i < len(self.heap), self.heap[i].first is not None and len(self.heap[i].first.data) >= 0))")],
+                    ("scores-valid", "SCORES3(self)")],
            modifies=_QMOD, props=P)
 
 
@@ -262,7 +332,7 @@ _H = [
 ]
 _CF = [("cf-wf", "WF(component_finder)"), ("cf-nodes", "forall(v, (v in component_finder.nodes) == exists(j, 0 <= j and j < len(positions) and positions[j] == v))")]
 _HQ = [("swo", "SWO()"), ("pos", "POSOK(pq)"), ("order", "ORDER(pq)"),
-       ("scores-valid", "forall(i, implies(0 <= i and i < len(pq.heap), pq.heap[i].first is not None and len(pq.heap[i].first.data) >= 0))"),
+       ("scores-valid", "SCORES3(pq)"),
        ("queued-are-undecided", "forall(k, implies(k in pq.positions, k in undecided_reads))")]
 
 R.contract(
